@@ -606,7 +606,9 @@ class DepolarizingNoise(AdditionNoiseBase):
         ):
             if not isinstance(state_rep, MixedStabilizer):
                 rep_data = MixedStabilizer([(1.0, state_rep.data)])
+                state.mixed = True
                 state.rep_data = rep_data
+                state_rep = state.rep_data
 
             original_prob = state_rep.probability
             mixture = []
